@@ -380,3 +380,9 @@ NATIVE.add(FLOAT_T + ".__init__", _gen_float_init, _build_float_init)
 NATIVE.add(SIGNED_T + ".inclusive_value_range", _gen_range(["int"]), _build_range)
 NATIVE.add(UNSIGNED_T + ".inclusive_value_range", _gen_range(["uint"]), _build_range)
 NATIVE.add(FLOAT_T + ".inclusive_value_range", _gen_range(["float"]), _build_range)
+
+
+# effect obligations (AST, complete for what they state): no memoising decorator, no module-level state - see specs/common.py
+from .common import no_hidden_state_check as _no_hidden_state_check  # noqa: E402
+EXTRA_CHECKS = list(globals().get("EXTRA_CHECKS", [])) + [_no_hidden_state_check(
+    ["pydsdl._serializable._attribute", "pydsdl._serializable._primitive"], "Constant and the value ranges")]
